@@ -55,6 +55,11 @@ fn hsl_white_overshoot(dst: &ct::TypeInfo, src_space: Space, x: &V3) -> bool {
         Space::Hsl(s) => s,
         _ => return false,
     };
+    // only a chain through another colorimetric space can overshoot: sources defined on the same RGB space
+    // (Rgb<S>, Hsv<S>, Hwb<S>) never produce components above 1 from in-range input
+    if src_space.anchor() == Some(std.space) {
+        return false;
+    }
     let rgb = Space::Rgb(std).from_xyz(src_space.to_xyz(*x));
     rgb.iter().all(|c| (*c - 1.0).abs() <= 1e-6)
 }
